@@ -23,7 +23,9 @@ def stmt_shapes(rng, n, ctxkind):
              "set w to head x", "set w to tail y", "set w to y and true", "if y and true then %s end", "set w to x - true", "set w to x * '2'", "set x to matchLength", "set y to matchLength > 3",
              "set w to x + 1", "if x then %s end",
              # empty bodies: each branch is checked on its own
-             "if true then else %s end", "if true then end", "if 1 < 2 then else %s end", "if true then else end", "if 'a' then else %s end", "if true then %s else end"]
+             "if true then else %s end", "if true then end", "if 1 < 2 then else %s end", "if true then else end", "if 'a' then else %s end", "if true then %s else end",
+             # an empty loop body (such programs are only compiled here: run, the loop would not end)
+             "loop end", "loop end break", "loop end continue", "if true then loop end end break", "loop loop end break end", "loop end if true then continue end"]
     out = []
     for _ in range(n):
         k = rng.choice([1, 2, 3])
@@ -96,8 +98,14 @@ def run(ctx):
                 src = "set f to transform %s end\nreplace all 'a' with f" % body
             else:
                 src = "set p to pattern 'a' begin %s end\nfind all p" % body
-            cases.append({"src": src, "texts": ["a", "ab"]})
+            cases.append({"src": src, "texts": [] if "loop end" in body else ["a", "ab"]})
             meta.append(("stmts", ctxkind, None))
+    for body in ("loop end break return 'x'", "loop end continue return 'x'", "loop end if true then break end return 'x'", "if true then loop end end break return 'x'",
+                 "loop loop end break end return 'x'", "loop end return 'x'", "set x to 1 loop end set x to 2 continue return 'x'"):
+        cases.append({"src": "set f to transform %s end\nreplace all 'a' with f" % body, "texts": []})
+        meta.append(("stmts", "transform", None))
+        cases.append({"src": "set p to pattern 'a' begin %s end\nfind all p" % body.replace("'x'", "true"), "texts": []})
+        meta.append(("stmts", "predicate", None))
     # several definitions in one program: each is checked in its own environment (a name assigned in one is an unknown name, hence a string, in the others)
     for _ in range(300 if quick else 4000):
         defs, uses = [], []
@@ -110,7 +118,7 @@ def run(ctx):
                 defs.append("set p%d to pattern 'a' begin %s end" % (i, body))
                 uses.append("p%d" % i)
         src = "\n".join(defs) + "\nfind all " + (" ".join(uses) if uses else "'a'")
-        cases.append({"src": src, "texts": ["a", "aaa"]})
+        cases.append({"src": src, "texts": [] if "loop end" in src else ["a", "aaa"]})
         meta.append(("stmts", "several definitions", None))
     gres, dis, stats = corr_core.run_core(cases, shards=12, spec=False)
     def known(case, d):
